@@ -135,12 +135,14 @@ def C05(t0):
             ('ark group order', consts.check_group_order, ('ark',)), ('min group order', consts.check_group_order, ('min',))]
     from . import curve
     jobs += [('min Element::conditional_select keeps the four coordinates of one operand (the ladder check models it as a merge)', curve.check_min_select, ())]
+    # likewise the ladder run models `Element + Element` and `Element::double` of the minimal build by the group operation: their bodies are decided here too (as in C04)
+    jobs += [('min group law (each ladder step: Add, double, Neg bodies against the affine law)', group.check_min_group_law, ())]
     obs = par.run_groups(_fl(jobs))
     return finish('C05', obs, t0, level='proof',
         functions=['min_curve Element::scalar_mul_both::<true|false>, scalar_mul, scalar_mul_vartime', 'all Mul/MulAssign impls (both builds)', 'Group::mul_bigint, AffineRepr::mul_bigint, Element::vartime_multiscalar_mul', 'Element::GENERATOR (order)'],
         bounds=['ladders: slices of 1..=5 symbolic 64-bit limbs (320 bits, longer than the modulus); longer slices outside the claim', 'multiscalar: 0..=3 pairs (5 in thorough) and unequal lengths',
                 'mul_bigint: integers of 1, 4, 5, 6 limbs with concrete values (wiring only)'],
-        trusted=[T_RUSTC, T_ARK + ": ark-ec's scalar multiplication / mul_bigint / default VariableBaseMSM for the inner points", 'each ladder step is the group law (C04); group axioms; r prime; "r times any element" is Lagrange on valid representatives'],
+        trusted=[T_RUSTC, T_ARK + ": ark-ec's scalar multiplication / mul_bigint / default VariableBaseMSM for the inner points", 'each ladder step of the minimal build is the group law: decided here by the same obligations as C04 (min group law); group axioms; r prime; "r times any element" is Lagrange on valid representatives'],
         assumptions=['the ladder is interpreted over the free cyclic group generated by its base point (an identity there holds in every group)'])
 
 def C06(t0):
